@@ -86,14 +86,19 @@ Fixpoint assoc_opt {A} (k : Z) (l : list (Z * A)) : option A :=
   match l with [] => None | (k', v) :: t => if k =? k' then Some v else assoc_opt k t end.
 
 (* configuration, max, setup uploads, decoding tables, key, observed outcome, observed recency
-   order (keys, least recently used first) after the call *)
+   order (keys, least recently used first) after the call, and what the backend answers to a
+   Contains for each hash (absent from the table: no) *)
+Fixpoint has_lookup (h : string) (l : list (string * bhas)) : bhas :=
+  match l with [] => BHasNo | (k, b) :: t => if String.eqb k h then b else has_lookup h t end.
+
 Definition acase : Type :=
-  cfg * Z * list request * list (Z * action_result) * list (Z * tree) * string * ac_outcome * list string.
+  cfg * Z * list request * list (Z * action_result) * list (Z * tree) * string * ac_outcome * list string
+  * list (string * bhas).
 
 Definition acase_ok (x : acase) : bool :=
-  let '(c, mx, setup, ars, trees, key, observed, order_after) := x in
+  let '(c, mx, setup, ars, trees, key, observed, order_after, has) := x in
   let d0 := fold_left (fun d r => fst (exec c d r)) setup (dinit mx 0) in
   let '(d1, o) := get_validated c (fun cid => assoc_opt cid ars) (fun cid => assoc_opt cid trees)
-                                (fun _ => BMiss) (fun _ => BHasNo) d0 key in
+                                (fun _ => BMiss) (fun h => has_lookup h has) d0 key in
   outcome_eqb o observed
   && list_eqb String.eqb (map (fun e => ekey (ent e)) (order (lru d1))) order_after.
